@@ -19,6 +19,8 @@ CLAIMED["C02"] = ("shadow-execution monitor: expression programs (binary + - @ *
                   "runtime monitoring: shadow execution of expression programs against torch dense semantics")
 CLAIMED["C04"] = ("reference-model monitor with hook-observed algorithm path: op.solve / torch.linalg.solve / linear_operator.solve on PD operators (all PD classes, nestings, rhs shapes, left factors) under a settings matrix; the kernel that ran is read from cg.* / chol.* / lanczos.* hook events and decides the tolerance (direct: kappa x precision; CG: configured tolerance, only when it ended without NumericalWarning); triangular operators against solve_triangular",
                   "runtime monitoring: reference-model monitor (backward/forward error on the dense matrix) with hook events selecting the tolerance class")
+CLAIMED["C05"] = ("reference-model monitor with hook-observed path: logdet / inv_quad / inv_quad_logdet on PD operators under a settings matrix; deterministic path compared with dense values and documented shapes; on the stochastic path the returned log-determinant is compared with the dense Gauss-Lanczos quadrature log|P| + (n/m) sum u_i^T log(P^-1/2 A P^-1/2) u_i of the probe vectors recorded from the cg.begin hook event (exact identity, 1e-8), inv_quad with the CG tolerance bound",
+                  "runtime monitoring: reference-model monitor; exact quadrature oracle over probe vectors recorded by the CG hook")
 PENDING = {}
 def main():
     hooks_commits = []
